@@ -23,9 +23,16 @@ class Exec(Engine):
         # argument evaluation (positional, keywords, **dict)
         def args_then(p0):
             pos = [a for a in n.args]
-            if any(isinstance(a, ast.Starred) for a in pos):
-                raise OutOfSubset("*args at a call site")
-            for av, p1 in s.ev_list(pos, p0):
+            star = [isinstance(a, ast.Starred) for a in pos]
+            for av0, p1 in s.ev_list([a.value if st_ else a for a, st_ in zip(pos, star)], p0):
+                av = []
+                for v, st_ in zip(av0, star):
+                    if not st_:
+                        av.append(v)
+                    elif isinstance(v, STup):
+                        av.extend(v.items)
+                    else:
+                        raise OutOfSubset("*args of symbolic length at a call site")
                 for kv, p2 in s.ev_list([k.value for k in n.keywords], p1):
                     kwargs = {}
                     for k, v in zip(n.keywords, kv):
@@ -295,7 +302,7 @@ class Exec(Engine):
             raise OutOfSubset(f"str.{attr}")
 
     # ------------------------------------------------------------------ builtins
-    BUILTINS = {"len", "range", "tuple", "list", "sorted", "isinstance", "all", "any", "max", "min", "id", "int", "set", "enumerate", "zip", "reversed", "str", "type", "sum"}
+    BUILTINS = {"len", "range", "tuple", "list", "sorted", "isinstance", "all", "any", "max", "min", "id", "int", "set", "enumerate", "zip", "reversed", "str", "type", "sum", "hasattr"}
 
     def bi_len(s, n, p):
         for v, p1 in s.ev(n.args[0], p):
@@ -386,6 +393,23 @@ class Exec(Engine):
             yield SInt(idf(v.t)), p1
 
     def bi_sorted(s, n, p):
+        rev = False
+        for kw in n.keywords:
+            if kw.arg == "reverse" and isinstance(kw.value, ast.Constant) and isinstance(kw.value.value, bool):
+                rev = kw.value.value
+            else:
+                raise OutOfSubset("sorted() with key= / non-constant reverse=")
+        if len(n.args) != 1:
+            raise OutOfSubset("sorted() arguments")
+        for v, p1 in s._sorted_asc(n, p):
+            if not rev:
+                yield v, p1
+            else:
+                r = fresh("rev", z3.ArraySort(I, I))
+                p1.pc.append(s.forall(0, v.n, lambda k: z3.Select(r, k) == z3.Select(v.arr, v.n - 1 - k)))
+                yield SSeq(r, v.n, "int", "list"), p1
+
+    def _sorted_asc(s, n, p):
         for v, p1 in s.ev(n.args[0], p):
             a = s.as_seq(v, p1)
             if a.ek != "int":
@@ -500,7 +524,30 @@ class Exec(Engine):
         yield from s._extremum(n, p, False)
 
     def bi_sum(s, n, p):
-        raise OutOfSubset("sum()")
+        """sum(int sequence) = seqsum(arr, n): uninterpreted, with its recursive definition as axioms (seqsum(a,0)=0, seqsum(a,k+1)=seqsum(a,k)+a[k])"""
+        if len(n.args) != 1 or n.keywords:
+            raise OutOfSubset("sum() with start")
+        for v, p1 in s.ev(n.args[0], p):
+            if isinstance(v, STup):
+                r = z3.IntVal(0)
+                for it in v.items:
+                    if not isinstance(it, (SInt, SBool)):
+                        raise OutOfSubset("sum of non-int")
+                    r = r + (it.t if isinstance(it, SInt) else z3.If(it.t, 1, 0))
+                yield SInt(r), p1
+                continue
+            sq = s.as_seq(v, p1)
+            if sq.ek != "int":
+                raise OutOfSubset("sum of non-int")
+            yield SInt(s.seqsum(sq.arr, sq.n)), p1
+
+    def seqsum(s, arr, n):
+        f = uf("seqsum", z3.ArraySort(I, I), I, I)
+        if not getattr(s, "_seqsum_axioms", False):
+            s._seqsum_axioms = True
+            a, k = z3.Const("ssa", z3.ArraySort(I, I)), z3.Int("ssk")
+            s.axioms += [z3.ForAll([a], f(a, 0) == 0), z3.ForAll([a, k], z3.Implies(k >= 0, f(a, k + 1) == f(a, k) + z3.Select(a, k)))]
+        return f(arr, n)
 
     def bi_int(s, n, p):
         for v, p1 in s.ev(n.args[0], p):
@@ -518,6 +565,23 @@ class Exec(Engine):
                     yield SInt(uf("int_of_str", S, I)(v.t)), q
             else:
                 raise OutOfSubset("int()")
+
+    def bi_hasattr(s, n, p):
+        for av, p1 in s.ev_list(n.args, p):
+            o, a = av
+            if not (isinstance(a, SConc) and isinstance(a.v, str)):
+                raise OutOfSubset("hasattr with a non-constant name")
+            if isinstance(o, SRec):
+                yield SBool(a.v in o.f), p1
+            elif isinstance(o, SObj):
+                s.abstracted.add(f"hasattr(·, {a.v!r})")
+                yield SBool(uf("has_" + a.v, Obj, B)(o.t)), p1
+            elif isinstance(o, (SInt, SBool)):
+                yield SBool(hasattr(0, a.v)), p1
+            elif isinstance(o, SConc):
+                yield SBool(hasattr(o.v, a.v)), p1
+            else:
+                raise OutOfSubset(f"hasattr on {o!r}")
 
     def bi_set(s, n, p):
         """set(seq) for homogeneous int/obj sequences: characteristic predicate (membership only; no cardinality)"""
@@ -592,7 +656,16 @@ class Exec(Engine):
         elif isinstance(target, ast.Subscript):
             (o, _), = list(s.ev(target.value, p))
             (k, _), = list(s.ev(target.slice, p))
-            if isinstance(o, SMap) and isinstance(target.value, ast.Name):
+            if isinstance(o, (SSeq, STup)) and o.pykind == "list" and isinstance(target.value, ast.Name) and isinstance(k, (SInt, SConc)) and not isinstance(target.slice, ast.Slice):
+                sq = s.as_seq(o, p, ek=getattr(v, "kind", None))
+                if getattr(v, "kind", None) != sq.ek:
+                    raise OutOfSubset("item store changes the element kind")
+                kt = k.t if isinstance(k, SInt) else z3.IntVal(int(k.v))
+                i, q = s.index(sq, kt, p, f"store:line{target.lineno}", target.lineno)
+                if q is None:
+                    return False
+                p.bind(target.value.id, SSeq(z3.Store(sq.arr, i, v.t), sq.n, sq.ek, "list"))
+            elif isinstance(o, SMap) and isinstance(target.value, ast.Name):
                 if getattr(k, "kind", None) != o.kk or getattr(v, "kind", None) != o.vk:
                     raise OutOfSubset("store of another key/value kind into a symbolic dict")
                 p.bind(target.value.id, SMap(z3.Store(o.has, k.t, z3.BoolVal(True)), z3.Store(o.val, k.t, v.t), o.kk, o.vk))
@@ -848,16 +921,17 @@ class Exec(Engine):
                 p.ghost[name] = z3.FreshConst(v.sort(), name)
 
     def st_While(s, st, p):
-        ordn = s.loop_counter
-        s.loop_counter += 1
+        ordn = s.loop_ordinal(st)
         if st.orelse:
             raise OutOfSubset("while-else")
         inv = s.invariants.get(ordn)
         if s.mode == "bmc" or inv is None:
             yield from s.unroll_while(st, p, ordn, s.unroll if s.mode == "bmc" else 16, strict=(s.mode != "bmc"))
             return
-        s.oblige(f"loop{ordn}:invariant-entry", p, inv(s, p), "invariant", st.lineno)
         mod = s.assigned_names(st.body, p)
+        p.ghost = dict(p.ghost)
+        p.ghost[f"entry{ordn}"] = {nm: p.lookup(nm) for nm in mod if p.has(nm)}  # values at loop entry (old(...) in invariants)
+        s.oblige(f"loop{ordn}:invariant-entry", p, inv(s, p), "invariant", st.lineno)
         q = p.fork()
         s.havoc(mod, q)
         s.havoc_ghost(q)
@@ -988,8 +1062,7 @@ class Exec(Engine):
         yield from spec(it_node, p)
 
     def st_For(s, st, p):
-        ordn = s.loop_counter
-        s.loop_counter += 1
+        ordn = s.loop_ordinal(st)
         for kind, payload, p1 in s.loop_items(st.iter, p):
             if kind == "items":
                 yield from s.for_unrolled(st, payload, p1)
@@ -1107,10 +1180,21 @@ class Exec(Engine):
         yield None, p
 
     # ------------------------------------------------------------------ driver
+    def loop_ordinal(s, st):
+        """static ordinal of a for/while statement: its position in source order among the loop statements of the code under verification
+        (the function, or the region); invariants are keyed by it, so the key does not depend on the order in which paths are explored"""
+        o = getattr(s, "_loop_ordinals", {}).get(id(st))
+        if o is None:  # statement outside the registered body (e.g. a helper function inlined from elsewhere): numbered after the static ones, in execution order
+            o = s._loop_extra = getattr(s, "_loop_extra", len(getattr(s, "_loop_ordinals", {})) - 1) + 1
+            s._loop_ordinals[id(st)] = o
+        return o
+
     def run(s, fnode, env, pre, ghost=None):
         """execute a function body from the entry; returns list of (outcome, path)"""
         p = Path([dict(env)], list(pre), ghost)
         body = fnode if isinstance(fnode, list) else fnode.body
+        loops = sorted((nn for st0 in body for nn in ast.walk(st0) if isinstance(nn, (ast.For, ast.While))), key=lambda nn: (nn.lineno, nn.col_offset))
+        s._loop_ordinals = {id(nn): i for i, nn in enumerate(loops)}
         s._exc.append([])
         try:
             outs = s.exec_block(body, [p])
